@@ -36,7 +36,7 @@ def hostile(args):
                     w.request(cid, rid)
             n = rnd.randint(0, kw.get("rate", 12))
             for _ in range(n):
-                kind = rnd.choice(["random", "random", "hdr-garbage", "crc-hello", "trunc", "oversize", "spoof-hello", "from-client-addr", "blocked"])
+                kind = rnd.choice(["random", "random", "hdr-garbage", "crc-hello", "trunc", "oversize", "spoof-hello", "from-client-addr", "hdr-from-client-addr", "blocked"])
                 src = ("6.6.%d.%d" % (rnd.randint(0, 255), rnd.randint(0, 255)), rnd.randint(1, 65000))
                 if kind == "random":
                     d = bytes(rnd.getrandbits(8) for _ in range(rnd.choice(lengths)))
@@ -61,6 +61,12 @@ def hostile(args):
                     if not hellos:
                         continue
                     d = rnd.choice(hellos)
+                elif kind == "hdr-from-client-addr":
+                    # spoofed source = an established client; well-formed header (any type, any sequence / ack numbers), garbage body
+                    body = bytes(rnd.getrandbits(8) for _ in range(rnd.randint(16, 120)))
+                    d = struct.pack(">4sLHHBHBL", b"FSOS", int(w.vt.time()), rnd.randint(1, 65535), rnd.randint(0, 65535), rnd.choice([3, 4, 5, 6, 7]), max(0, len(body) - 16),
+                                    rnd.choice([0, 1, 2]), rnd.getrandbits(32)) + body
+                    src = w.clients[rnd.choice([1, 2])]["addr"]
                 elif kind == "from-client-addr":
                     d = bytes(rnd.getrandbits(8) for _ in range(rnd.randint(0, 80)))
                     src = w.clients[rnd.choice([1, 2])]["addr"]
